@@ -5,7 +5,7 @@ from .. import world as W
 from . import _ws
 
 ID = 'C13'
-TIERS = {'quick': {'seeds': 15000, 'seconds': 75, 'determinism': 48},
+TIERS = {'quick': {'seeds': 15000, 'seconds': 45, 'determinism': 48},
          'thorough': {'seconds': 900, 'determinism': 512, 'minimise_s': 120}}
 RULE = ('seeded sequential runs (15% with -j N: the children\'s output is relayed by the parent); every test phase may write unique tokens to sys.stdout / '
         'sys.stderr / their .buffer / print, with and without newline; every outcome kind incl. '
